@@ -71,10 +71,9 @@ def cmp(x,y):
             return c
         else:
             return cmparr(xv, yv)
-    if is_nan(x):
-        x = np.inf
-    if is_nan(y):
-        y = np.inf
+    xn, yn = is_nan(x) and x != x, is_nan(y) and y != y ## NaN ranks above every number, the infinities included; -inf and +inf keep their own places: all three used to tie, so a join paired -inf keys with +inf (and NaN) keys
+    if xn or yn:
+        return 0 if (xn and yn) else 1 if xn else -1
     if is_iterable(x):
         return cmparr(x,y)
     else:
